@@ -318,6 +318,28 @@ def run_case(c):
         r['states'] = nstep * (nasm + (1 if grec else 0)) + 1
         r['transitions'] = nstep * (nasm + (1 if grec else 0))
         r['traces'] = 1
+        if c.get('resweep') and not V and not has_switch:
+            # the same Reactor reset to the inlet and swept again: the same temperatures (heat carried over from the
+            # first sweep would be heat from nowhere)
+            def snap():
+                out_ = [np.array(core.coolant_gap_temp, dtype=float, copy=True)] if core.model is not None else []
+                for a_ in rx.assemblies:
+                    out_.append(np.array(a_.active_region.temp['coolant_int'], dtype=float, copy=True))
+                    out_.append(np.array(a_.active_region.temp['duct_mw'], dtype=float, copy=True).ravel())
+                return np.concatenate([x.ravel() for x in out_])
+            first = snap()
+            for k_ in range(int(c['resweep'])):
+                rx.reset()
+                O.sweep(rx, None, max_steps=cap)
+                again = snap()
+                r['traces'] += 1
+                r['transitions'] += nstep * nasm
+                dev = float(np.max(np.abs(again - first)))
+                if not dev <= 1e-9:
+                    V.append(violation('resweep-differs', dict(c, sweep=k_ + 2),
+                                       'sweep %d of the same Reactor after reset() ends with other temperatures than the '
+                                       'first sweep' % (k_ + 2), dev, 0.0, 1e-9, site='reactor.py:reset'))
+                    break
         r['nontrivial'] = bool(shared > 0 or core.model is None)
         r['outcome'] = 'ok' if not V else 'violation'
         r['extra'] = {'shared_cells': shared, 'mixed_mesh_layouts': int(len(set(RINGS[x] for x in c['layout'] if x)) > 1),
@@ -362,6 +384,10 @@ def cases(tier):
         # dumps switched on (an observer must not change the balance)
         for lay in (['A', 'B', 'U', 'D', 'C', 'A', 'D'], ['B', 'A', None, 'A', 'C', 'B', 'A']):
             out.append({'layout': lay, 'gapfrac': 0.05, 'gap_model': 'flow', 'max_steps': 40, 'dump': True})
+        # the same Reactor reset and swept a second and a third time
+        for lay in (['A', 'B', 'A', 'B', 'A', 'A', 'B'], ['B', 'A', None, 'A', 'D', 'B', 'A'], ['A', 'B', 'U', 'D', 'A', 'A', 'D']):
+            for gm in ('flow', 'no_flow'):
+                out.append({'layout': lay, 'gapfrac': 0.05, 'gap_model': gm, 'max_steps': 40, 'resweep': 2})
         # a requested step far below every limit: 1600 planes (the first 60 are swept)
         for lay in (['A', 'B', 'A', None, 'U', 'A', 'B'], ['D', 'A', None, None, None, None, None]):
             out.append({'layout': lay, 'gapfrac': 0.05, 'gap_model': 'flow', 'max_steps': 60, 'dz': 1.0e-4})
@@ -400,6 +426,9 @@ def cases(tier):
                 out.append({'layout': lay, 'gapfrac': gf, 'gap_model': 'flow', 'max_steps': 40})
         for lay in layouts7(['A', 'B'], 1, 7):
             out.append({'layout': lay, 'gapfrac': 0.05, 'gap_model': 'none', 'max_steps': 15})
+        for lay in layouts7(['A', 'B', 'U', 'D'], 2, 2):
+            for gm in ('flow', 'no_flow', 'duct_average'):
+                out.append({'layout': lay, 'gapfrac': 0.05, 'gap_model': gm, 'max_steps': 40, 'resweep': 2})
         # 19 positions, at most two vacancies, two type patterns
         pats = [['A', 'B'] * 9 + ['A'], ['C', 'A', 'U', 'D', 'B', 'S', 'A'] * 3][:2]
         for pat in pats:
